@@ -138,7 +138,8 @@ func runHistory(c Case, r *vcore.Rec, obs ...Observer) (*Exec, *vcore.Failure) {
 	return x, f
 }
 
-var c01Params = &HistoryParams{MinOps: 15, MaxOps: 60, Episodes: true, Cloud: 1, Lag: true, Ranges: true, FaultPct: 25, Reloads: true}
+var c01Params = &HistoryParams{MinOps: 15, MaxOps: 60, Episodes: true, Cloud: 1, Lag: true, Ranges: true, FaultPct: 25, Reloads: true,
+	Weights: map[string]int{"restart": 4, "reload": 4}}
 
 func checkC01(c Case, r *vcore.Rec) *vcore.Failure {
 	if f := maybeEnumerate(c, r, func() []Observer { return []Observer{&ObsC01{}} }); f != nil {
